@@ -214,7 +214,7 @@ let () =
                       | None -> if kv = "" then None else Some (kv, "")) (split ' ' res) in
                   let fld k = try Some (List.assoc k fields) with Not_found -> None in
                   let vec_of_hex h = bits_of_hex nw h in
-                  let idxs = List.map ios (match name with "isoren" -> [List.hd args] | _ -> args) in
+                  let idxs = List.map ios (match name with "isoren" -> [List.hd args] | "alias" -> List.tl args | _ -> args) in
                   (* operand vectors as observed on the Go side, checked against the model's Accept *)
                   let ovecs () =
                     match fld "o" with
@@ -330,6 +330,13 @@ let () =
                         let mine = String.concat ";" (List.map (fun l -> String.concat "." (List.map (fun x -> string_of_int (int_of_z x)) l)) mfm) in
                         if s <> mine then mism "fidelity" "%s: final map: implementation %s, model %s" op s mine
                       | None -> ())
+                   | "alias", _ ->
+                     (* independence: extending the result must not move an operand and vice versa;
+                        model values are immutable, so the expected answer is always "ok" *)
+                     bump "independence_probes";
+                     (match fld "a" with
+                      | Some "ok" | None -> ()
+                      | Some v -> mism "api" "%s: %s (Accept vector or structure of the other automaton changed: the result shares state with its operand)" op v)
                    | "iso", _ ->
                      let i = List.nth idxs 0 and j = List.nth idxs 1 in
                      let m = if isN then nisomorphic (Lazy.force nfas.(i)) (Lazy.force nfas.(j))
